@@ -120,10 +120,18 @@ fn run_k<K: Kmer + Send + Sync + Serialize + DeserializeOwned + 'static>(c: &Cas
     rayon::set_max_workers(c.threads.max(2));
     let base = Arc::new(base);
     let sh = Arc::new(Mutex::new(Shared::default()));
+    let slog: Option<crate::c19::ScheduleLog> = if rec.recording() { Some(Arc::new(Mutex::new(Vec::new()))) } else { None };
     {
         let (base, sh) = (base.clone(), sh.clone());
         let threads = c.threads;
-        run_batch(&Sched::Random, c.sched_seed, c.executions, move || scenario::<K>(&base, gamma, threads, &sh));
+        let (seed, n, sl) = (c.sched_seed, c.executions, slog.clone());
+        let r = simcore::driver::guarded(move || run_batch(&Sched::Random, seed, n, sl, move || scenario::<K>(&base, gamma, threads, &sh)));
+        if let Some(l) = &slog {
+            crate::c19::note_schedules(rec, l);
+        }
+        if let Err((loc, msg)) = r {
+            return Err(Violation::new("panic", &loc, format!("uncaught panic at {}: {}", loc, msg.chars().take(300).collect::<String>())));
+        }
     }
     let s = sh.lock().unwrap();
     rec.add("executions", s.executions);
